@@ -27,6 +27,8 @@ def conv(rng, i):
         size = rng.choice([3, 100, 1024, 1025, 3000]) if fr != "none" else 0
         r = AReq(method=rng.choice(["GET", "POST", "PUT"]), target="/v" + tag, version="1.1", headers=[("Host", "h")], framing=fr,
                  body=body_bytes(tag, size), chunks=random_chunks(rng, size) if fr == "chunked" else None)
+        if fr == "cl" and rng.chance(1, 4):
+            r.expect = "100-continue"       # (announced, the body is sent right behind the head all the same)
         if k == n - 1 and rng.chance(1, 3):
             # the request that ends the connection: same demands (a small body cut short is NOT delivered)
             if rng.chance(1, 2):
@@ -46,7 +48,7 @@ def expected_delivered(reqs, cut):
         body = r.render_body()
         if pos + len(head) > cut:
             break
-        if r.framing == "cl" and 0 < len(r.body) <= 1024:
+        if r.framing == "cl" and 0 < len(r.body) <= 1024 and not r.expect:
             if pos + len(head) + len(body) > cut:
                 break
         out.append(r.target)
@@ -87,8 +89,8 @@ def gen(tier, rng):
         acts = [action_str([(None, 2048)], respond_str(200, body_bytes("a%d" % k, 300), True)) for k in range(len(reqs))]
         for cut in cuts_for(rng, reqs, stream, tier):
             want = expected_delivered(reqs, cut)
-            kind = rng.choice(["half", "half", "half", "full", "rst"])
-            tr = "t" if kind == "rst" else "u"
+            kind = rng.choice(["half", "half", "half", "full", "rst", "unread"])
+            tr = "t" if kind in ("rst", "unread") else "u"
             extra = "wu=%s we=closed cut=%d fin=%s" % (j(hx(t) for t in want), cut, kind)
             yield cv_line(stream[:cut], acts, transport=tr, extra=extra), {"close": kind, "delivered_expected": len(want)}
 
@@ -117,6 +119,8 @@ def oracle(case, obs):
         return "FAIL implementation: " + o.special[:200]
     if "PANIC" in obs:
         return "FAIL panic while serving a vanished client"
+    if " recverr=" in obs:
+        return "FAIL the application's receive call returned an error because one client's connection broke"
     a = annot.fields(case)
     want = [annot.unhex(x) for x in annot.lst(a["wu"])]
     got = [r.url for r in o.reqs]
